@@ -9,4 +9,4 @@ import SpgProofs.Properties.C08
 #print axioms Spg.C08.genChars_infallible
 #print axioms Spg.C08.entropy_stream_indep
 #print axioms Spg.C08.entropy_stream_dependent_counterexample
-#print axioms Spg.C08.unCap_order_dependent_counterexample
+#print axioms Spg.C08.History.unCap_order_dependent_counterexample
